@@ -17,6 +17,7 @@ package crypto
 //@   modifies consumed(conn), buf[__]
 //@   ensures  [enough] $r1 == nil ==> len($r0) >= n
 //@   ensures  [exact]  len($r0) == old(len(buf)) + (consumed(conn) - old(consumed(conn)))
+//@   ensures  [cap]    len($r0) <= max(old(len(buf)), max(n, m))
 //@   ensures  [prefix] forall k int :: 0 <= k && k < old(len(buf)) ==> $r0[k] == old(buf[k])
 //@   ensures  [bytes]  forall k int :: old(len(buf)) <= k && k < len($r0) ==> $r0[k] == streamAt(conn, old(consumed(conn)) + k - old(len(buf)))
 //@   props    C07
@@ -28,4 +29,85 @@ package crypto
 //@   ensures  [wf]    $r0 != nil && $r0.AllowCryptoHandshake && $r0.AllowEncryption && ($r0.ForceCryptoHandshake ==> $r0.PreferCryptoHandshake) && ($r0.ForceEncryption ==> $r0.PreferEncryption)
 //@   ensures  [force] $r0.ForceCryptoHandshake == force && $r0.ForceEncryption == force
 //@   ensures  [prefer] $r0.PreferCryptoHandshake == (prefer || force) && $r0.PreferEncryption == (prefer || force)
+//@   props    C08
+
+// ClientHandshake: PARTIAL check of the policy, for every option value and
+// every behaviour of the peer: a forbidden crypto handshake is refused; with
+// ForceEncryption a successful handshake returns an ENCRYPTED connection (never
+// the raw one); without AllowEncryption it never returns an encrypted one.
+//@ func ClientHandshake
+//@   requires c != nil && options != nil
+//@   modifies *
+//@   ensures  [forbidden] !options.AllowCryptoHandshake ==> err != nil
+//@   ensures  [forced]    old(options.ForceEncryption) && err == nil ==> conn != c
+//@   ensures  [plain]     !old(options.AllowEncryption) && err == nil ==> conn == c
+//@   focus    post:forbidden, post:forced, post:plain
+//@   props    C08
+
+// ServerHandshake: PARTIAL check of the policy (same three clauses), for every
+// option value and every byte the client may send.
+//@ func ServerHandshake
+//@   requires c != nil && options != nil
+//@   requires forall i int :: 0 <= i && i < len(skeys) ==> len(skeys[i]) == 20
+//@   modifies heap:ghost:*, heap:chan#closed, heap:math/big.*, heap:crypto/*, heap:A:*, heap:global:*, heap:time.*, heap:net*, heap:sync*
+//@   ensures  [forbidden] !options.AllowCryptoHandshake ==> err != nil
+//@   ensures  [forced]    old(options.ForceEncryption) && err == nil ==> conn != c
+//@   ensures  [plain]     !old(options.AllowEncryption) && err == nil ==> conn == c
+//@   ensures  [conn]      err == nil ==> conn != nil
+//@   ensures  [ia]        len(ia) <= 65535
+//@   ensures  [skey]      err == nil ==> len(skey) == 20
+//@   loop 1
+//@     invariant skey == nil || len(skey) == 20
+//@   deadcode 3
+//@   focus    post:forbidden, post:forced, post:plain, post:conn, post:ia, post:skey, cover:, frame:
+//@   props    C08
+
+// synchronise: scans for the pattern v in what has been received, reading
+// more as needed; whatever it returns is a suffix of (w followed by exactly
+// the bytes received): nothing that was not received, nothing dropped except
+// the part up to and including the pattern.
+//@ func synchronise
+//@   requires c != nil && n >= 0 && m >= 0 && n <= 1<<20 && m <= 1<<20 && len(w) <= 1<<20
+//@   modifies consumed(c), w[__]
+//@   ensures  [tail] len($r0) <= old(len(w)) + (consumed(c) - old(consumed(c)))
+//@   ensures  [fail] $r1 != nil ==> len($r0) == old(len(w)) + (consumed(c) - old(consumed(c)))
+//@   ensures  [cap]  len($r0) <= max(old(len(w)), max(n, m))
+//@   loop 1
+//@     invariant len(w) == old(len(w)) + (consumed(c) - old(consumed(c))) && len(w) <= max(old(len(w)), max(n, m)) && m >= n && m <= 1<<20
+//@     invariant (samearr_(w, old(w)) && cap(w) == old(cap(w))) || fresh_(w)
+//@   props    C07
+
+// Assumed (package-local) contract of sync.Pool.Get for the one pool of this
+// package: pool.New makes 32 KiB byte buffers and Write puts back what it got.
+//@ extern sync.(*Pool).Get
+//@   import "sync"
+//@   sig func(p *sync.Pool) (x any)
+//@   alloc    32768
+//@   ensures  typeis_[[]byte](x) && len(as_[[]byte](x)) == 32768 && as_[[]byte](x) != nil && fresh_(as_[[]byte](x))
+//@ extern sync.(*Pool).Put
+//@   import "sync"
+//@   sig func(p *sync.Pool, x any)
+//@   noalloc
+
+// Conn.Read: decrypts exactly the n bytes the underlying connection
+// delivered, in place.
+//@ func (*Conn).Read
+//@   requires c != nil && c.conn != nil && c.dec != nil
+//@   modifies *
+//@   ensures  [n] 0 <= n && n <= len(b)
+//@   props    C08
+
+// Conn.Write: encrypts and sends b in pieces of at most 32 KiB; reports
+// len(b) exactly when everything went out; after ANY failure (which leaves
+// the key stream out of step with the peer) the error is sticky: nothing is
+// ever written again.
+//@ func (*Conn).Write
+//@   requires c != nil && c.conn != nil && c.enc != nil
+//@   modifies *
+//@   ensures  [n]      0 <= n && n <= len(b)
+//@   ensures  [all]    err == nil ==> n == len(b)
+//@   ensures  [sticky] old(c.err) != nil ==> n == 0 && err != nil
+//@   ensures  [latch]  err != nil ==> c.err != nil
+//@   loop 1
+//@     invariant 0 <= n && n <= len(b) && err == nil && len(buf) > 0 && c.err == nil && c.conn != nil && c.enc != nil
 //@   props    C08
